@@ -32,6 +32,10 @@ def x_obligations(tier):
             seq = seq.replace("/r/", "/z/")
         o.append(Obl(f"C06-seq[{cfg}]", M, "from_path_seq", env={"VF_CONFIG": cfg, "VF_SEQ": seq, "VF_CACHES": "1"}, timeout=T, family="C06-seq",
                      bound="two paths resolved one after the other (caches on), both from a 10-entry pool that contains paths of different types with equal fields (search-symbol extension)"))
+    # the same path asked under one configuration, then under the other one (a result remembered across configurations would adopt a foreign path)
+    for cfg, cfg2, pre, n in [("server", "local", "/r/H/A/x/", 2), ("local", "server", "/z/H/A/x/", 2), ("server", "local", "/r/H/A/", 1)]:
+        o.append(Obl(f"C06-other-config-first[{cfg2} then {cfg},{pre!r}+{n}]", M, "from_path_after_other", env={"VF_PRE": pre, "VF_N": str(n if tier == "quick" else n + 1), "VF_CONFIG": cfg, "VF_CONFIG2": cfg2}, timeout=T, path_timeout=200,
+                     family="C06-seq", bound=f"Sid(path=p, config={cfg2!r}) then Sid(path=p, config={cfg!r}), p = {pre!r}+x, every x with len(x) <= {n if tier == 'quick' else n + 1}"))
     o.append(Obl("C06-reach", M, "reach_from_path", env={"VF_N": "1", "VF_PRE": "/r/H/A/"}, timeout=150, expect="refute", family="C06-twin"))
     return o
 
